@@ -108,7 +108,7 @@ class DataParser(MCNP_Parser):
         "NUM_MULTIPLY padding",
     )
     def text_phrase(self, p):
-        self._flush_phrase(p, str)
+        return self._flush_phrase(p, str)
 
     @_("text_phrase", "text_sequence text_phrase")
     def text_sequence(self, p):
